@@ -132,3 +132,20 @@ Proof.
   - destruct n; [rewrite Nat.sub_0_r; reflexivity|].
     destruct r; [lia|]. simpl. apply IH. lia.
 Qed.
+
+Lemma firstn_add {A} n m (l : list A) : firstn (n + m) l = firstn n l ++ firstn m (skipn n l).
+Proof.
+  revert l; induction n; intros l; simpl; [reflexivity|].
+  destruct l as [|y l]; simpl.
+  - rewrite firstn_nil. reflexivity.
+  - f_equal. apply IHn.
+Qed.
+
+Lemma all_live_nth l i : Forall (fun o : option K => o <> None) l -> i < length l ->
+  exists x, nth_error l i = Some (Some x).
+Proof.
+  intros H L. destruct (nth_error l i) as [[x|]|] eqn:E.
+  - eauto.
+  - exfalso. apply (Forall_nth_error _ _ _ _ H E). reflexivity.
+  - apply nth_error_None in E. lia.
+Qed.
